@@ -145,6 +145,32 @@ pub const STICKY_COORD: Granularity = Granularity::Focus(
     ],
 );
 
+/// The attempt-granularity points under the sticky cost model (a stale attempt that is kept away
+/// while its predecessor is executed, finalised and committed costs one deviation).
+pub const STICKY_ATTEMPT: Granularity = Granularity::Focus(
+    "sticky-attempt",
+    &[
+        grevm_verif_rt::pt::EXEC_BEGIN,
+        grevm_verif_rt::pt::MV_READ,
+        grevm_verif_rt::pt::DEP_UPDATE,
+        grevm_verif_rt::pt::ERROR_HEAD_CHECK,
+        grevm_verif_rt::pt::EXECUTION_CLAIMED,
+        grevm_verif_rt::pt::HARNESS_DB,
+    ],
+);
+
+/// The validation / finality points under the sticky cost model.
+pub const STICKY_VALIDATION: Granularity = Granularity::Focus(
+    "sticky-validation",
+    &[
+        grevm_verif_rt::pt::EXEC_BEGIN,
+        grevm_verif_rt::pt::VALIDATION_CLAIMED,
+        grevm_verif_rt::pt::DEP_UPDATE,
+        grevm_verif_rt::pt::REWIND_DONE,
+        grevm_verif_rt::pt::EXECUTION_CLAIMED,
+    ],
+);
+
 pub fn jobs(prop: &str, tier: Tier) -> Vec<Job> {
     match prop {
         "C01" => c01::jobs(tier),
